@@ -23,44 +23,60 @@ def _san(h):
     return re.sub(r"[^A-Za-z0-9_]+", "_", h)
 
 
-def make_replay(pid, crate, harness, h):
-    """1. Kani prints the concrete test for the failing check (no source is modified);
-       2. the test is appended to a scratch copy of the harness crate with the harness referred to by
-          its full path (macro-generated harnesses make Kani's own `inplace` mode unusable);
-       3. the scratch crate's test is run natively with `cargo kani playback`."""
+MAX_REPLAYS = 3
+
+
+def make_replays(pid, crate, failing):
+    """failing: {harness: parsed result}. Up to MAX_REPLAYS counterexamples are generated (one Kani
+    invocation, in parallel) and replayed natively; the rest is reported as not replayed."""
     t0 = time.time()
     base = os.path.join(REPLAYS, pid)
     os.makedirs(base, exist_ok=True)
-    out = {"reproduced": False, "path": None, "note": "", "harness": harness, "crate": crate}
-    cmd = ["cargo", "kani", "--target-dir", os.path.join(kani_runner.TARGET, crate), "-Z", "unstable-options",
-           "-Z", "stubbing", "-Z", "concrete-playback", "--concrete-playback=print",
-           "--harness", harness, "--exact", "--harness-timeout", "3600s"]
-    with kani_runner.Lock(crate):
+    names = sorted(failing)
+    chosen = names[:MAX_REPLAYS]
+    results = {n: {"reproduced": False, "path": None, "harness": n, "crate": crate,
+                   "note": "not replayed (only the first %d failing harnesses of a run are replayed)" % MAX_REPLAYS}
+               for n in names}
+    # --concrete-playback is incompatible with --jobs: one Kani process per harness, run concurrently
+    # (the build is a no-op after the first one took cargo's lock)
+    def gen(n):
+        cmd = ["cargo", "kani", "--target-dir", os.path.join(kani_runner.TARGET, crate), "-Z", "unstable-options",
+               "-Z", "stubbing", "-Z", "concrete-playback", "--concrete-playback=print", "--exact",
+               "--harness-timeout", "3600s", "--harness", n]
         p = subprocess.run(cmd, cwd=kani_runner.crate_dir(crate), env=kani_runner.ENV, stdout=subprocess.PIPE,
                            stderr=subprocess.STDOUT, text=True, errors="replace")
-    gen_log = os.path.join(base, _san(harness) + ".kani-playback-gen.log")
+        return " ".join(cmd) + "\n" + p.stdout
+    import concurrent.futures
+    with kani_runner.Lock(crate):
+        with concurrent.futures.ThreadPoolExecutor(max_workers=len(chosen)) as ex:
+            outs = list(ex.map(gen, chosen))
+    class P:  # noqa
+        stdout = "\n".join(outs)
+    p = P()
+    gen_log = os.path.join(base, "kani-playback-gen.%s.log" % crate)
     with open(gen_log, "w") as f:
-        f.write(" ".join(cmd) + "\n" + p.stdout)
+        f.write(p.stdout)
     tests = parse_printed_tests(p.stdout)
-    # Kani names a test after a hash of its values and prints each value vector once, so the
-    # counterexample of a failing assertion may be printed under a `cover` heading: run them all
-    # natively (a cover test that passes natively is harmless), failing-check ones first
-    failing = [t for t in tests if t["kind"] != "cover"] + [t for t in tests if t["kind"] == "cover"]
-    if not failing:
-        out["note"] = "Kani produced no concrete playback test for a failing check (see %s)" % gen_log
-        return out
-    rec = {"property": pid, "harness": harness, "crate": crate,
-           "failed_checks": h.get("failed_checks"),
-           "tests": failing[:12], "created": time.strftime("%Y-%m-%dT%H:%M:%S")}
-    native = run_native(rec)
-    out.update(native)
-    rec["native"] = native
-    rec["wall_s"] = round(time.time() - t0, 1)
-    path = os.path.join(base, _san(harness) + ".replay.json")
-    with open(path, "w") as f:
-        json.dump(rec, f, indent=1)
-    out["path"] = path
-    return out
+    for n in chosen:
+        mine = [t for t in tests if t["harness"] == n]
+        # Kani names a test after a hash of its values and prints each value vector once, so the
+        # counterexample of a failing assertion may be printed under a `cover` heading: run them all
+        # natively (a cover test that passes natively is harmless), failing-check ones first
+        mine = [t for t in mine if t["kind"] != "cover"] + [t for t in mine if t["kind"] == "cover"]
+        if not mine:
+            results[n]["note"] = "Kani produced no concrete playback test (see %s)" % gen_log
+            continue
+        rec = {"property": pid, "harness": n, "crate": crate, "failed_checks": failing[n].get("failed_checks"),
+               "tests": mine[:12], "created": time.strftime("%Y-%m-%dT%H:%M:%S")}
+        native = run_native(rec)
+        rec["native"] = native
+        rec["wall_s"] = round(time.time() - t0, 1)
+        path = os.path.join(base, _san(n) + ".replay.json")
+        with open(path, "w") as f:
+            json.dump(rec, f, indent=1)
+        results[n].update(native)
+        results[n]["path"] = path
+    return results
 
 
 def parse_printed_tests(text):
